@@ -274,6 +274,9 @@ LABELS = {
     'float': lambda i: i + 0.5,
     'bigint': lambda i: 10 ** 20 + i,
     'dict': lambda i: yutils.FrozenDict({'k': i}),
+    # dictionaries with two keys; equal elements of one collection are
+    # spelled with their keys in different orders (see check_relabel)
+    'dict2': lambda i: yutils.FrozenDict({'k': i, 'z': 's'}),
     'mixed': lambda i: ('s%d' % i, i + 0.25, 5000 + i,
                         yutils.FrozenDict({'k': i}))[i % 4],
     # (no falsy labels: the renamed integers are all truthy, so a model that
@@ -400,6 +403,15 @@ def check_relabel(run, case):
         else:
             binds[k] = v
     real = [f(i) if i is not None else None for i in L]
+    if case['label'] == 'dict2':
+        # equal dictionaries are equal elements whatever the order their
+        # keys were inserted in
+        real = [x if j % 2 == 0 or x is None else yutils.FrozenDict(
+            list(x.items())[::-1]) for j, x in enumerate(real)]
+        for k in ('o', 'c2'):
+            if isinstance(binds.get(k), tuple):
+                binds[k] = tuple(yutils.FrozenDict(list(x.items())[::-1])
+                                 for x in binds[k])
     binds['c'] = _materialise(kind, real)
     got = _evaluate(e.template, binds)
     run.case(case, _nontrivial(L, kind, args),
@@ -461,7 +473,13 @@ def single_cases(draw):
 
 @st.composite
 def relabel_cases(draw):
-    fn = draw(st.sampled_from(parametric_entries()))
+    names = parametric_entries()
+    # entries that compare or hash elements are drawn as often as all the
+    # others together
+    eq = [n for n in names if any(k in n.lower() for k in (
+        'distinct', 'indexof', 'contains', 'in', 'count', 'groupby',
+        'todict', 'replace', 'delete'))]
+    fn = draw(st.sampled_from(eq if eq and draw(st.booleans()) else names))
     e = M.ENTRIES[fn]
     L = draw(lists)
     if e.elems == 'intnull':
@@ -469,7 +487,7 @@ def relabel_cases(draw):
     args, lam = draw(_args_for(e, [x for x in L if x is not None], fn))
     return {'kind': 'relabel', 'fn': fn, 'c': L,
             'ckind': draw(st.sampled_from(e.kinds)),
-            'label': draw(st.sampled_from(sorted(LABELS))),
+            'label': draw(st.sampled_from(sorted(LABELS) + ['dict2'])),
             'args': {k: common.enc(v) for k, v in args.items()}}
 
 
